@@ -54,7 +54,7 @@ static uint64_t state_hash(const std::vector<cell_ptr>& L) {
 }
 
 // non-interacting tissue: cells on a line, gaps of several cell sizes; growth, division and removal enabled
-static tis::Scenario make_far(Rng& g, int iterations) {
+static tis::Scenario make_far(Rng& g, int iterations, bool very_large_cell = false) {
     tis::Scenario s; s.P = tis::base_params(g); s.iterations = iterations; s.family = "non_interacting";
     const double r = 4.2e-6 * g.uni(0.9, 1.1), V0 = 4.0 / 3.0 * M_PI * r * r * r * 0.93; int n = g.range(2, 8);
     // no division here: the two daughters of a division touch each other, i.e. they interact, which the statement excludes from
@@ -64,6 +64,9 @@ static tis::Scenario make_far(Rng& g, int iterations) {
     cell_type_parameters doomed = tis::base_type(0, g, V0); doomed.name_ = "doomed"; doomed.min_vol_ = V0 * 0.97; doomed.avg_growth_rate_ = -1.0 * V0 / (iterations * s.P.time_step_); doomed.bulk_modulus_ *= 4; s.types.push_back(doomed);
     s.types.push_back(tis::base_type(2, g, V0)); s.types.push_back(tis::base_type(3, g, V0)); s.types.push_back(tis::base_type(4, g, V0));
     for (int i = 0; i < n; i++) { double u = g.uni(); int t = u < 0.45 ? 0 : u < 0.65 ? 1 : u < 0.8 ? 2 : u < 0.87 ? 3 : u < 0.94 ? 4 : 5; s.cells.push_back({tis::sphere(r, i * 6.0 * r, 0, 0, g), t}); }
+    // one identity run in three: a very large cell as well (20480 faces, same edge length as the others): loops over the faces or nodes of ONE cell that are themselves
+    // parallel above a size threshold (and sum in another order with another team) only show on such a cell
+    if (very_large_cell) { s.cells.push_back({tis::sphere(8 * r, -14.0 * r, 0, 0, g, 5), 1}); s.family = "non_interacting_with_a_very_large_cell"; }
     s.P.simulation_duration_ = (iterations - 0.5) * s.P.time_step_; s.P.sampling_period_ = g.range(3, 15) * s.P.time_step_;
     return s;
 }
@@ -95,7 +98,7 @@ static RunOut run_fresh(const tis::Scenario& s0, int threads, uint64_t sched_see
 static std::string identity_case(const Args& a, long i) {
     Rng g(a.seed, (uint64_t)i, 0x15); Case c(i);
     int iters = g.range((int)a.geti("min_iterations", 25), (int)a.geti("max_iterations", 50));
-    tis::Scenario s = make_far(g, iters);
+    tis::Scenario s = make_far(g, iters, i % 3 == 0);
     auto& S = verif::get(); S.rng_seed = rng_seed; S.sched_point = sched_point; S.phase = on_phase; g_limit = tis::extent_limit(s);
     std::string out = "thr_out_" + std::to_string(i) + "_" + std::to_string((long)getpid()); uint64_t base = hash_combine(a.seed, (uint64_t)i);
     const bool fresh = a.geti("fresh_process", 1) != 0; auto RUN = [&](int t, uint64_t ss, bool on) { return fresh ? run_fresh(s, t, ss, on, base, out) : run_tissue(s, t, ss, on, base, out); };
@@ -109,7 +112,7 @@ static std::string identity_case(const Args& a, long i) {
         if (r.hash != ref.hash) c.viol("state_differs_from_single_thread:threads" + std::to_string(t), "final state (positions, momenta, connectivity, labels) with " + std::to_string(t) + " threads differs from the single-threaded run (ref cells=" + std::to_string(ref.cells) + " iters=" + std::to_string(ref.iters) + ", got cells=" + std::to_string(r.cells) + " iters=" + std::to_string(r.iters) + " exc=" + r.exc + ")");
     }
     c.nontrivial = ref.exc.empty() && ref.iters >= 10; c.sig = hash_combine(ref.hash, (uint64_t)inter.size());
-    c.obs.i("cells_start", (long)s.cells.size()).i("cells_end", ref.cells).i("iterations", ref.iters).i("runs", runs).i("distinct_interleavings", (long)inter.size()).s("ref_exception", ref.exc.substr(0, 100)).hex("state", ref.hash);
+    c.obs.s("family", s.family).i("cells_start", (long)s.cells.size()).i("cells_end", ref.cells).i("iterations", ref.iters).i("runs", runs).i("distinct_interleavings", (long)inter.size()).s("ref_exception", ref.exc.substr(0, 100)).hex("state", ref.hash);
     return c.line();
 }
 
@@ -224,6 +227,7 @@ static int cmd_threads(const Args& a) {
         else L = body();
         auto num = [&](const std::string& k) -> long { size_t p = L.find("\"" + k + "\":"); if (p == std::string::npos) return 0; return atol(L.c_str() + p + k.size() + 3); };
         agg.bin("mode:" + mode); for (const char* k : {"runs", "distinct_interleavings", "successful_divisions", "iterations"}) agg.bin(k, num(k));
+        if (L.find("non_interacting_with_a_very_large_cell") != std::string::npos) agg.bin("identity_runs_with_a_very_large_cell");
         { size_t p = L.find("\"kind\":\""); if (p != std::string::npos) { size_t s0 = p + 8; agg.bin("exception_kind:" + L.substr(s0, L.find('"', s0) - s0)); } }
         { size_t p = L.find("\"threads\":"); if (p != std::string::npos && mode == "exception") agg.bin("exception_threads:" + std::to_string(num("threads"))); }
         if (L.find("\"v\":\"skip\"") != std::string::npos) agg.skipped++;
